@@ -303,4 +303,27 @@ def newGame (params : Params) (deck discard p1 p2 : List Card) (turn : Turn) : E
           lastDraw := none, lastFromDiscard := none, hud := [(top, .top)], complete := false, turns := 0,
           shuffles := 0, p1Points := none, p2Points := none }
 
+/-- the constructor with its optional `public_hud` argument: `None` is `newGame` (`{self.discard[-1]: TOP}`, an
+`IndexError` on an empty pile); an explicit map – e.g. `{}` from a caller restoring a stored game – is taken as it
+is (`self.discard[-1]` is then not evaluated, so an empty pile is accepted) -/
+def newGameWith (params : Params) (deck discard p1 p2 : List Card) (turn : Turn)
+    (hud0 : Option (List (Card × Hud))) : Except Err GState :=
+  match hud0 with
+  | none => newGame params deck discard p1 p2 turn
+  | some h =>
+    .ok { params := params, deck := deck, discard := discard, p1 := p1, p2 := p2, turn := turn, firstTurn := turn,
+          lastDraw := none, lastFromDiscard := none, hud := h, complete := false, turns := 0,
+          shuffles := 0, p1Points := none, p2Points := none }
+
+/-- without a map the constructor is `newGame` -/
+theorem newGame_eq_newGameWith (params : Params) (deck discard p1 p2 : List Card) (turn : Turn) :
+    newGame params deck discard p1 p2 turn = newGameWith params deck discard p1 p2 turn none := rfl
+
+/-- on a non-empty pile the constructor is `newGame` with `hud := hud0.getD [(top, .top)]` -/
+theorem newGameWith_hud (params : Params) (deck discard p1 p2 : List Card) (turn : Turn)
+    (hud0 : Option (List (Card × Hud))) (top : Card) (ht : discard.getLast? = some top) :
+    newGameWith params deck discard p1 p2 turn hud0 =
+      (newGame params deck discard p1 p2 turn).map fun g => { g with hud := hud0.getD [(top, .top)] } := by
+  cases hud0 <;> simp [newGameWith, newGame, ht, Except.map]
+
 end CardVerif.Gin
